@@ -614,6 +614,7 @@ func visibleAt(ws []uni.Write, ts uint64) (string, bool) {
 
 type problem struct {
 	Sig, Msg string
+	Txn      uint64 // the transaction the problem is about (0: none in particular)
 }
 
 // judge compares the store before and after the GC run.  full=false (GC returned an error): only safety.
@@ -654,7 +655,7 @@ func judge(regs []*txnReg, before, after *snapshotOfStore, sp uint64, full bool)
 		}
 		t := byStart[l.StartTS]
 		if t == nil {
-			probs = append(probs, problem{"harness:unknown-lock", fmt.Sprintf("lock of unknown txn %d on %q", l.StartTS, k)})
+			probs = append(probs, problem{"harness:unknown-lock", fmt.Sprintf("lock of unknown txn %d on %q", l.StartTS, k), l.StartTS})
 			continue
 		}
 		if o := outcomes[l.StartTS]; o.Committed && !isPess(l) {
@@ -696,18 +697,18 @@ func judge(regs []*txnReg, before, after *snapshotOfStore, sp uint64, full bool)
 			switch {
 			case !o.Committed:
 				probs = append(probs, problem{"gc:uncommitted-txn-got-a-version:" + shapeOf(w.StartTS),
-					fmt.Sprintf("key %q: record %s of txn %d appeared, but the txn was not committed before GC (%s)", k, id, w.StartTS, o.Why)})
+					fmt.Sprintf("key %q: record %s of txn %d appeared, but the txn was not committed before GC (%s)", k, id, w.StartTS, o.Why), w.StartTS})
 			case w.CommitTS != o.CommitTS:
 				probs = append(probs, problem{"gc:commit-ts-changed:" + shapeOf(w.StartTS),
-					fmt.Sprintf("key %q: txn %d committed at %d, but its commit ts is %d (%s)", k, w.StartTS, w.CommitTS, o.CommitTS, o.Why)})
+					fmt.Sprintf("key %q: txn %d committed at %d, but its commit ts is %d (%s)", k, w.StartTS, w.CommitTS, o.CommitTS, o.Why), w.StartTS})
 			default:
 				probs = append(probs, problem{"gc:unexpected-version:" + shapeOf(w.StartTS),
-					fmt.Sprintf("key %q: record %s appeared; expected additions %v", k, id, adds[k])})
+					fmt.Sprintf("key %q: record %s appeared; expected additions %v", k, id, adds[k]), w.StartTS})
 			}
 		}
 		for _, w := range bw {
 			if _, ok := aset[wkey(w)]; !ok {
-				probs = append(probs, problem{"gc:version-lost:" + shapeOf(w.StartTS), fmt.Sprintf("key %q: record %s existed before GC and is gone", k, wkey(w))})
+				probs = append(probs, problem{"gc:version-lost:" + shapeOf(w.StartTS), fmt.Sprintf("key %q: record %s existed before GC and is gone", k, wkey(w)), w.StartTS})
 			}
 		}
 		if full {
@@ -715,7 +716,7 @@ func judge(regs []*txnReg, before, after *snapshotOfStore, sp uint64, full bool)
 				if _, ok := aset[wkey(w)]; !ok {
 					probs = append(probs, problem{"gc:committed-txn-not-committed-on-key:" + shapeOf(w.StartTS),
 						fmt.Sprintf("key %q carried a %s lock of committed txn %d (commit ts %d, %s); after GC the record %s is missing; records now %v",
-							k, w.Type, w.StartTS, w.CommitTS, outcomes[w.StartTS].Why, wkey(w), aw)})
+							k, w.Type, w.StartTS, w.CommitTS, outcomes[w.StartTS].Why, wkey(w), aw), w.StartTS})
 				}
 			}
 		}
@@ -724,23 +725,69 @@ func judge(regs []*txnReg, before, after *snapshotOfStore, sp uint64, full bool)
 	for k, l := range after.locks {
 		bl, was := before.locks[k]
 		if !was || bl.StartTS != l.StartTS {
-			probs = append(probs, problem{"gc:new-lock", fmt.Sprintf("key %q carries a lock of %d that did not exist before GC", k, l.StartTS)})
+			probs = append(probs, problem{"gc:new-lock", fmt.Sprintf("key %q carries a lock of %d that did not exist before GC", k, l.StartTS), l.StartTS})
 			continue
 		}
 		if full && l.StartTS <= sp {
 			probs = append(probs, problem{"gc:lock-left:" + role(l) + ":" + shapeOf(l.StartTS),
-				fmt.Sprintf("key %q still carries the %s lock of txn %d (<= safe point %d), primary %q, txn %s", k, l.Type, l.StartTS, sp, l.Primary, outcomes[l.StartTS].Why)})
+				fmt.Sprintf("key %q still carries the %s lock of txn %d (<= safe point %d), primary %q, txn %s", k, l.Type, l.StartTS, sp, l.Primary, outcomes[l.StartTS].Why), l.StartTS})
 		}
 	}
 	for k, l := range before.locks {
 		if l.StartTS > sp {
 			if al, ok := after.locks[k]; !ok || al.StartTS != l.StartTS || al.Type != l.Type {
 				probs = append(probs, problem{"gc:lock-above-safepoint-touched:" + role(l),
-					fmt.Sprintf("key %q: lock of txn %d (> safe point %d) was removed or changed", k, l.StartTS, sp)})
+					fmt.Sprintf("key %q: lock of txn %d (> safe point %d) was removed or changed", k, l.StartTS, sp), l.StartTS})
 			}
 		}
 	}
 	return probs, expected, outcomes
+}
+
+func panicSite(p any) string {
+	s := fmt.Sprint(p)
+	switch {
+	case strings.Contains(s, "saved to cache with existing different entry"):
+		return "resolver-status-cache-conflict"
+	case strings.Contains(s, "undetermined status saved to cache"):
+		return "resolver-undetermined-status-cached"
+	case strings.Contains(s, "nil pointer") || strings.Contains(s, "invalid memory address"):
+		return "nil-dereference"
+	case strings.Contains(s, "index out of range") || strings.Contains(s, "slice bounds"):
+		return "index-out-of-range"
+	}
+	return "other"
+}
+
+// scanLockTyped reports whether the store's raw ScanLock answer names the type of the (pessimistic) lock on key.
+func scanLockTyped(u *uni.Universe, key string) bool {
+	st := u.TruthStore()
+	for attempt := 0; attempt < 10; attempt++ {
+		bo := tikv.NewBackofferWithVars(bg, 20000, nil)
+		loc, err := st.GetRegionCache().LocateKey(bo, []byte(key))
+		if err != nil {
+			return true
+		}
+		req := tikvrpc.NewRequest(tikvrpc.CmdScanLock, &kvrpcpb.ScanLockRequest{MaxVersion: ^uint64(0), StartKey: []byte(key), EndKey: loc.EndKey, Limit: 1 << 20})
+		resp, err := st.SendReq(bo, req, loc.Region, 10*time.Second)
+		if err != nil {
+			return true
+		}
+		if re, _ := resp.GetRegionError(); re != nil {
+			continue
+		}
+		sr, ok := resp.Resp.(*kvrpcpb.ScanLockResponse)
+		if !ok || sr == nil {
+			return true
+		}
+		for _, l := range sr.Locks {
+			if string(l.Key) == key {
+				return l.LockType == kvrpcpb.Op_PessimisticLock
+			}
+		}
+		return true
+	}
+	return true
 }
 
 // ---------------------------------------------------------------------------------------------------------
@@ -904,6 +951,23 @@ func runGCCase(r *vrep.Report, cs gcCase) {
 		}
 	}
 
+	// stale pessimistic locks that name themselves as primary although their (committed) transaction's primary is another key
+	var selfPrimaryOfCommitted []string
+	for k, l := range before.locks {
+		if t := byStart[l.StartTS]; t != nil && l.StartTS <= sp && isPess(l) && string(l.Primary) == k && t.Primary != k && deriveOutcome(t, before).Committed {
+			selfPrimaryOfCommitted = append(selfPrimaryOfCommitted, k)
+		}
+	}
+	sort.Strings(selfPrimaryOfCommitted)
+	if len(selfPrimaryOfCommitted) > 0 && cs.Mode != "range" && cs.Conc > 1 && !scanLockTyped(u, selfPrimaryOfCommitted[0]) {
+		// A store whose ScanLock answer lacks the lock type (mocktikv, known finding C14-1) makes the resolver look
+		// such a transaction up twice with different answers; when two workers do that at the same time the
+		// resolver's status cache panics - on a goroutine of the GC's own range task, which would end this
+		// process and every other monitor in it.  One worker cannot race with itself; the wrong outcome the
+		// untyped answer causes is still produced and reported.  (mode "range" recovers in its handler instead.)
+		cs.Conc = 1
+		r.Count("concurrency_forced_to_1:untyped-scanlock", 1)
+	}
 	gc, err := u.NewClient()
 	if err != nil {
 		r.Inconc("gc client: %v", err)
@@ -1067,8 +1131,36 @@ func runGCCase(r *vrep.Report, cs gcCase) {
 		out.pan = handlerPanic
 	}
 	panicMu.Unlock()
+	// Did the resolver treat a pessimistic lock as a prewrite lock?  (CheckTxnStatus on behalf of a lock that the
+	// truth knows as pessimistic, sent without resolving_pessimistic_lock: the store's ScanLock answer did not say
+	// what kind of lock it is - mocktikv, known finding C14-1.)  Transactions this happened to are named in the signature.
+	checkedAsPrewrite := map[uint64]bool{}
+	for _, c := range u.Log.CallsFrom(logFrom) {
+		if c.Client != gc.ID || c.Cmd != tikvrpc.CmdCheckTxnStatus {
+			continue
+		}
+		if q, ok := c.Req.(*kvrpcpb.CheckTxnStatusRequest); ok && !q.ResolvingPessimisticLock {
+			if l, ok := before.locks[string(q.PrimaryKey)]; ok && l.StartTS == q.LockTs && isPess(l) {
+				checkedAsPrewrite[q.LockTs] = true
+			}
+		}
+	}
+	const causeTag = "pessimistic-lock-checked-as-prewrite-lock"
 	if out.pan != nil {
-		r.Violate("gc:panic:"+cs.Mode, fmt.Sprintf("%s: GC panicked: %v", cs, out.pan), detail(nil))
+		// the signature names the panic site and whether the population holds the one shape that is known to
+		// provoke it on a store whose ScanLock does not report lock types
+		shape := "no-self-primary-pessimistic-lock-of-committed-txn"
+		if len(selfPrimaryOfCommitted) > 0 {
+			shape = "self-primary-pessimistic-lock-of-committed-txn"
+			for _, k := range selfPrimaryOfCommitted {
+				if checkedAsPrewrite[before.locks[k].StartTS] {
+					shape += ":" + causeTag
+					break
+				}
+			}
+		}
+		viol(r, cs.Backend, "gc:panic:"+cs.Mode+":"+panicSite(out.pan)+":"+shape, fmt.Sprintf("%s: GC panicked: %v", cs, out.pan),
+			detail(map[string]any{"self_primary_pessimistic_locks_of_committed_txns": selfPrimaryOfCommitted}))
 		return
 	}
 	if !u.Drain() {
@@ -1076,7 +1168,7 @@ func runGCCase(r *vrep.Report, cs gcCase) {
 		return
 	}
 	for _, p := range u.Panics() {
-		r.Violate("backend-panic:"+p.Msg, cs.String()+": the store panicked serving "+p.Req, detail(map[string]any{"panic": p}))
+		viol(r, cs.Backend, "backend-panic:"+p.Msg, cs.String()+": the store panicked serving "+p.Req, detail(map[string]any{"panic": p}))
 	}
 	after, err := takeTruth(u, keys)
 	if err != nil {
@@ -1090,18 +1182,21 @@ func runGCCase(r *vrep.Report, cs gcCase) {
 	probs, expected, outcomes := judge(b.regs, before, after, sp, full)
 	seenSig := map[string]bool{}
 	for _, p := range probs {
+		if p.Txn != 0 && checkedAsPrewrite[p.Txn] {
+			p.Sig += ":" + causeTag
+		}
 		// one witness per signature and case
 		if seenSig[p.Sig] {
 			continue
 		}
 		seenSig[p.Sig] = true
-		r.Violate(p.Sig, cs.String()+": "+p.Msg, detail(map[string]any{"gc_error": es(out.err), "problems_in_this_case": len(probs)}))
+		viol(r, cs.Backend, p.Sig, cs.String()+": "+p.Msg, detail(map[string]any{"gc_error": es(out.err), "problems_in_this_case": len(probs)}))
 	}
 	r.Eval(len(before.locks) + len(keys) + len(b.regs))
 	if out.err != nil {
 		r.Count("gc_returned_error", 1)
 		if faults.Load() == 0 && !runaway.Load() {
-			r.Violate("gc:error-without-fault:"+cs.Mode, fmt.Sprintf("%s: GC returned %s although no fault was injected", cs, es(out.err)), detail(nil))
+			viol(r, cs.Backend, "gc:error-without-fault:"+cs.Mode, fmt.Sprintf("%s: GC returned %s although no fault was injected", cs, es(out.err)), detail(nil))
 		} else {
 			r.Count("gc_error_after_faults", 1)
 		}
@@ -1205,7 +1300,7 @@ func readsAfterGC(r *vrep.Report, u *uni.Universe, cs gcCase, sp uint64, keys []
 			want, ok := visibleAt(expected[k], ts)
 			g, gok := got[k]
 			if ok != gok || want != g {
-				r.Violate("gc:read-changed:"+what, fmt.Sprintf("%s: %s of %q at ts %d (safe point %d) returned (%q,%v); the state before GC and the transaction outcomes imply (%q,%v)", cs, what, k, ts, sp, g, gok, want, ok),
+				viol(r, cs.Backend, "gc:read-changed:"+what, fmt.Sprintf("%s: %s of %q at ts %d (safe point %d) returned (%q,%v); the state before GC and the transaction outcomes imply (%q,%v)", cs, what, k, ts, sp, g, gok, want, ok),
 					detail(map[string]any{"key": k, "read_ts": ts, "records_expected": fmt.Sprint(expected[k])}))
 				return
 			}
@@ -1219,7 +1314,7 @@ func readsAfterGC(r *vrep.Report, u *uni.Universe, cs gcCase, sp uint64, keys []
 		if errors.As(err, &ab) {
 			sig = "gc:read-refused-at-or-above-safepoint:" + what
 		}
-		r.Violate(sig, fmt.Sprintf("%s: %s at ts %d (safe point %d) failed: %s", cs, what, ts, sp, es(err)), detail(map[string]any{"read_ts": ts}))
+		viol(r, cs.Backend, sig, fmt.Sprintf("%s: %s at ts %d (safe point %d) failed: %s", cs, what, ts, sp, es(err)), detail(map[string]any{"read_ts": ts}))
 	}
 	for _, ts := range []uint64{sp, now} {
 		asked := keys
